@@ -179,6 +179,10 @@ func ParseRtpHeader(b []byte) (h RtpHeader, err error) {
 
 	if h.Padding == 1 {
 		h.paddingLength = int(b[len(b)-1])
+		// padding不能超过负载的长度，并且去掉padding后至少要有1字节负载
+		if offset+h.paddingLength >= len(b) {
+			return h, base.ErrRtpRtcpShortBuffer
+		}
 	}
 	return
 }
